@@ -3082,6 +3082,21 @@ def reswitch_loops(body, facts, memo):
     for b in [x for x in walk(body) if x.get("k") == "Block"]:
         sts = b.get("s", [])
         for i, st in enumerate(sts):
+            # the if/else form: `if (c) { for (x : L) B1 } else { for (x : L) B2 }`
+            if isinstance(st, dict) and st.get("k") == "If" and st.get("else") is not None and st.get("condvar") is None:
+                th_ = [x for x in ir.stmts(st["then"]) if not (isinstance(x, dict) and x.get("k") == "Null")]
+                el_ = [x for x in ir.stmts(st["else"]) if not (isinstance(x, dict) and x.get("k") == "Null")]
+                if len(th_) == 1 and len(el_) == 1 and th_[0].get("k") == "RangeFor" and el_[0].get("k") == "RangeFor":
+                    l1, l2 = th_[0], el_[0]
+                    v1, v2 = l1.get("var") or {}, l2.get("var") or {}
+                    if ir.show(l1.get("range")) == ir.show(l2.get("range")) and v1.get("t") == v2.get("t") and "id" in v1 and "id" in v2 and \
+                            _invariant_in(st["cond"], [l1.get("body"), l2.get("body")], facts, memo) and is_pure(l1.get("range"), facts):
+                        _rename_locals(l1["body"], {v1["id"]: v2["id"]})
+                        l2["body"] = {"k": "Block", "l": l2.get("l"), "s": [
+                            {"k": "If", "l": st.get("l"), "cond": st["cond"], "then": l1["body"], "else": l2["body"]}]}
+                        sts[i] = l2
+                        count += 1
+                continue
             if not (isinstance(st, dict) and st.get("k") == "If" and st.get("else") is None and st.get("condvar") is None):
                 continue
             th = [x for x in ir.stmts(st["then"]) if not (isinstance(x, dict) and x.get("k") == "Null")]
